@@ -39,6 +39,9 @@ CHECKS = {
  "C06": dict(engine="mirsmt", technique="SMT partial-order encoding generated from the MIR of Registry::{get_or_create_*,get_*,delete_*} over sharded abstract maps with a lock-word model of RwLock (acquire/release race relation incl. release sequences); native schedule replay on real threads",
     text="for every interleaving of 2-3 racing get-or-create / delete calls and for sequential get/delete/get-or-create histories from an arbitrary well-formed registry: one storage per (kind,key), created at most once, different keys/kinds never share, delete/get report existence, mutations only under the write lock, no data race on shard entries",
     note="hashbrown trusted as a map for keys with coherent Eq/hash (the check verifies syntactically that the shard maps use KeyHasher); 2 shards; whole-map iteration (visit/retain/clear/handles) not covered", ref="§4 C06"),
+ "C01": dict(engine="mirsmt", technique="SMT over a sequential encoding generated from the MIR of scenario programs (Rust, /verif/mirharness) and of metrics::recorder (LocalRecorderGuard::{new,drop}, with_local_recorder, with_recorder, set_global_recorder), including unwinding edges; ghost scope list as oracle; counterexamples replayed natively by linking the same scenario source against the real crate",
+    text="for every solver-chosen branch of the scenario programs (nested closures to depth 3, guards in LIFO and arbitrary order, leaked guard, panic unwinding through a scope, global/no-op fall-through): every emission is dispatched exactly once to the innermost live local recorder, else the global, else the no-op recorder, never to a recorder whose installing borrow ended; the two known weaknesses (K1 FIFO guard drop, K2 leaked guard) are re-derived, replayed natively and reported as KNOWN-FINDING",
+    note="one thread; thread-local isolation is the language guarantee; macro forms (key/metadata as spelled) not covered yet", ref="§4 C01"),
 }
 NA = {}
 ids = [json.loads(l)["id"] for l in open(os.path.join(V, "properties.jsonl"))]
